@@ -258,7 +258,14 @@ func runProperty(p *Program, cfg *PropConfig, tier string, verbose bool) *PropRe
 					mine = append(mine, o)
 				}
 			}
-			discharge(mine, opt)
+			if rep.Panic == "" && rep.Aborted == "" {
+				discharge(mine, opt)
+			} else {
+				// an incompletely explored function proves nothing
+				for _, o := range mine {
+					o.Result = &SolverResult{Status: "unknown", Raw: "function not fully explored: " + rep.Panic + rep.Aborted, All: map[string]string{}}
+				}
+			}
 			// vacuity covers for every executed function
 			dischargeCovers(rep.Covers, dischargeOpts{timeoutMs: 3000, workers: 16})
 			outs[i] = fnOut{rep, mine}
@@ -392,6 +399,14 @@ func (res *PropResult) report(p *Program, cfg *PropConfig, tier string, writeBas
 	}
 	writeEvidence(p, cfg, tier, res, all, discharged, undecidedNew, missing, backends, vac, knownPrinted, violations)
 	if writeBaseline {
+		// only obligations that discharge well under the quick cap are ever claimed
+		var stable []string
+		for _, s := range all {
+			if s.Status == "discharged" && s.MaxMs < 3000 {
+				stable = append(stable, s.Name)
+			}
+		}
+		discharged = stable
 		baseline[cfg.ID] = discharged
 		sort.Strings(baseline[cfg.ID])
 		data, _ := json.MarshalIndent(baseline, "", " ")
